@@ -364,6 +364,14 @@ theorem C13_commutes_render_kept_partial (ps : List (Bytes × Tag)) (last : Byte
     unfold parseTemplate; rw [ht]
   exact ⟨ht, hp, by unfold renderSrc; rw [hp]⟩
 
+/-- Rendering is insensitive to empty text nodes (what an empty TEXT token becomes): removing every `.text []` node,
+    at every depth (block, macro, loop and branch bodies included), from a parsed template changes nothing in the
+    result of rendering — output or error — under any context.  (The general statement for engines with several
+    templates is `Lift.renderTop_strip`; it also preserves the callback trace.) -/
+theorem C13_render_dropEmptyText (nodes : List Node) (vars : List (Bytes × Val)) :
+    renderNodesTop (stripL nodes) vars = renderNodesTop nodes vars :=
+  renderNodesTop_strip nodes vars
+
 /-! ## non-vacuity and concrete instances (kernel evaluation of the whole pipeline) -/
 
 /-- evaluation helper for closed instances -/
